@@ -46,7 +46,11 @@ func (d *Driver) demoteCbAfter(inst, gen int, step uint64) *CbEvt {
 	return nil
 }
 
-func (d *Driver) judgeC03() {
+func (d *Driver) judgeC03() { d.judgeC03as("C03") }
+
+// judgeC03as runs the C03 decision procedure and files verdicts under prop (C13 reuses it
+// for "a leader whose record was tampered with is demoted as in C03").
+func (d *Driver) judgeC03as(prop string) {
 	p := d.plan
 	T := hbTimeout(p.H)
 	for _, t := range d.terms() {
@@ -126,24 +130,24 @@ func (d *Driver) judgeC03() {
 				deadline := a1.TRet
 				slack := d.stallIn(t.Inst, a1.TRet, a1.TRet+time.Second) + time.Millisecond
 				if !d.stopInvokedBefore(t.Inst, t.Gen, deadline+slack) && deadline+slack < d.endAt {
-					d.judgedInc("C03")
+					d.judgedInc(prop)
 					fallT := t.End
 					if t.Fall == nil || fallT > deadline+slack {
 						when := "never"
 						if t.Fall != nil {
 							when = fmt.Sprintf("at %v", fallT)
 						}
-						d.h.violate("C03", "still-leader-after-next-heartbeat/record-"+cause+"/"+errClass(a1.SrvErr),
+						d.h.violate(prop, "still-leader-after-next-heartbeat/record-"+cause+"/"+errClass(a1.SrvErr),
 							fmt.Sprintf("i%d.%d: its record was %s at %v; its next heartbeat attempt (#%d) got the verdict %q at %v, but it stopped claiming leadership %s", t.Inst, t.Gen, cause, tL, a1.ID, errStr(a1.SrvErr), a1.TRet, when), deadline, a1.SRet)
 					} else if cb := d.demoteCbAfter(t.Inst, t.Gen, t.SEnd); !in.cfg.NoCallbacks && (cb == nil || cb.T > deadline+slack+d.stallIn(t.Inst, deadline, cb.T)) {
-						d.h.violate("C03", "ondemote-late-after-record-loss/record-"+cause, fmt.Sprintf("i%d.%d lost its record at %v, claim cleared at %v, OnDemote not run by %v", t.Inst, t.Gen, tL, fallT, deadline), deadline, a1.SRet)
+						d.h.violate(prop, "ondemote-late-after-record-loss/record-"+cause, fmt.Sprintf("i%d.%d lost its record at %v, claim cleared at %v, OnDemote not run by %v", t.Inst, t.Gen, tL, fallT, deadline), deadline, a1.SRet)
 					}
 					if a1.TRet > tL+p.H+2*T+d.stallIn(t.Inst, tL, a1.TRet)+time.Millisecond {
-						d.h.violate("C03", "next-heartbeat-later-than-H+2T/record-"+cause, fmt.Sprintf("i%d.%d: record %s at %v but the next heartbeat attempt completed only at %v (> H + 2 time-outs)", t.Inst, t.Gen, cause, tL, a1.TRet), a1.TRet, a1.SRet)
+						d.h.violate(prop, "next-heartbeat-later-than-H+2T/record-"+cause, fmt.Sprintf("i%d.%d: record %s at %v but the next heartbeat attempt completed only at %v (> H + 2 time-outs)", t.Inst, t.Gen, cause, tL, a1.TRet), a1.TRet, a1.SRet)
 					}
 				}
 			} else {
-				d.skip("C03", "clause1-mixed-or-no-verdict")
+				d.skip(prop, "clause1-mixed-or-no-verdict")
 			}
 		}
 		// ---- clause 2: three consecutive failed or timed-out refreshes
@@ -170,16 +174,16 @@ func (d *Driver) judgeC03() {
 					break
 				}
 				slack := d.stallIn(t.Inst, op.TInvoke, f3+time.Second) + time.Millisecond
-				d.judgedInc("C03")
+				d.judgedInc(prop)
 				if t.Fall == nil || t.End > f3+slack {
 					when := "never"
 					if t.Fall != nil {
 						when = fmt.Sprintf("at %v", t.End)
 					}
-					d.h.violate("C03", "still-leader-after-third-failed-heartbeat/"+faultClass(op),
+					d.h.violate(prop, "still-leader-after-third-failed-heartbeat/"+faultClass(op),
 						fmt.Sprintf("i%d.%d: three consecutive refreshes failed (third, #%d, completed at %v) but it stopped claiming leadership %s", t.Inst, t.Gen, op.ID, f3, when), f3, op.SRet)
 				} else if cb := d.demoteCbAfter(t.Inst, t.Gen, t.SEnd); !in.cfg.NoCallbacks && (cb == nil || cb.T > f3+slack+d.stallIn(t.Inst, f3, cb.T)) {
-					d.h.violate("C03", "ondemote-late-after-third-failed-heartbeat", fmt.Sprintf("i%d.%d OnDemote not run by %v", t.Inst, t.Gen, f3), f3, op.SRet)
+					d.h.violate(prop, "ondemote-late-after-third-failed-heartbeat", fmt.Sprintf("i%d.%d OnDemote not run by %v", t.Inst, t.Gen, f3), f3, op.SRet)
 				}
 				// S: start of the last successful refresh; for a term without one, the start of the term
 				// (the heartbeat ticker starts when the acquisition has returned)
@@ -194,9 +198,9 @@ func (d *Driver) judgeC03() {
 					okFast = true
 				}
 				if !okFast {
-					d.skip("C03", "clause2-numeric-slow-last-success")
+					d.skip(prop, "clause2-numeric-slow-last-success")
 				} else if f3 > s0+3*p.H+3*T+d.stallIn(t.Inst, s0, f3)+time.Millisecond {
-					d.h.violate("C03", "third-failure-later-than-3H+3T", fmt.Sprintf("i%d.%d: last successful refresh started at %v, third failed attempt completed at %v", t.Inst, t.Gen, s0, f3), f3, op.SRet)
+					d.h.violate(prop, "third-failure-later-than-3H+3T", fmt.Sprintf("i%d.%d: last successful refresh started at %v, third failed attempt completed at %v", t.Inst, t.Gen, s0, f3), f3, op.SRet)
 				}
 				break
 			}
@@ -358,6 +362,329 @@ func (d *Driver) tailLeaderCheck(prop string) {
 				}
 			}
 			d.h.violate(prop, "no-leader-at-end-of-fault-free-tail", fmt.Sprintf("group %s has running instances %v but nobody claims leadership after a fault-free tail of %v", g, who, d.plan.Tail), d.endAt, d.endStep)
+		}
+	}
+}
+
+// ---------- C13: arbitrary record contents never crash, hang or promote ----------
+
+func (d *Driver) judgeC13() {
+	p := d.plan
+	// (panics, deadlocks and stack overflows kill the worker and are reported by the orchestrator;
+	// unbounded recursion that has not yet overflowed is reported from the stack depth in judge())
+	// spinning: store operations per instance per virtual second
+	capPerSec := 50 + int(20*time.Second/p.H)
+	for _, in := range d.insts {
+		var times []time.Duration
+		for _, op := range d.h.Ops {
+			if op.Inst == in.idx {
+				times = append(times, op.TInvoke)
+			}
+		}
+		j := 0
+		for i := range times {
+			for times[i]-times[j] > time.Second {
+				j++
+			}
+			if i-j+1 > capPerSec {
+				d.h.violate("C13", "store-operation-storm", fmt.Sprintf("i%d issued %d store operations within one virtual second around %v (cap %d)", in.idx, i-j+1, times[i], capPerSec), times[i], 0)
+				break
+			}
+		}
+	}
+	// never promote over a live record somebody else wrote
+	for _, c := range d.h.Claims {
+		if !c.Edge || !c.Val {
+			continue
+		}
+		o := d.obj(c.Inst, c.Gen)
+		if o == nil || o.dead {
+			continue
+		}
+		d.judgedInc("C13")
+		// The claim must rest on a successful write of its own (creation over no live record, or a
+		// legitimate preemption - C01/C10 judge which) carrying the term's token. A record that is
+		// overwritten while that write's acknowledgement is still in flight is a loss the instance
+		// cannot know of yet; C03 bounds how long the claim may then stand.
+		own := false
+		for _, op := range d.h.Ops {
+			if op.Inst == c.Inst && op.Gen == c.Gen && (op.Kind == "create" || op.Kind == "update") && op.Applied && op.OK && op.Err == nil &&
+				op.SRet <= c.Step && op.New != nil && op.New.P.OK && op.New.P.Token == c.Token && op.New.P.ID == d.inst(c.Inst).cfg.ID && !strings.HasPrefix(op.Caller, "heartbeatLoop") {
+				own = true
+			}
+		}
+		if !own {
+			what := "no live record"
+			if c.Live != nil {
+				what = fmt.Sprintf("live record seq=%d written by %d: %.60q", c.Live.Seq, c.Live.Writer, c.Live.Val)
+			}
+			d.h.violate("C13", "promoted-without-own-successful-write/rise-by:"+c.Stack, fmt.Sprintf("i%d.%d claimed leadership at %v (token %s) without a successful create/takeover of its own carrying that token; %s", c.Inst, c.Gen, c.T, short(c.Token), what), c.T, c.Step)
+		}
+	}
+	d.judgeC03as("C13")
+}
+
+// ---------- C04: fencing-token validation sound and fail-safe ----------
+
+func (d *Driver) judgeC04() {
+	terms := d.terms()
+	termAt := func(inst, gen int, step uint64) *Term {
+		var t *Term
+		for _, x := range terms {
+			if x.Inst == inst && x.Gen == gen && x.SStart <= step && (x.Fall == nil || x.SEnd > step) {
+				t = x
+			}
+		}
+		return t
+	}
+	for _, a := range d.h.Apis {
+		if a.Kind != AValidate && a.Kind != AValidateOD {
+			continue
+		}
+		if a.TRet < 0 {
+			continue
+		}
+		o := d.obj(a.Inst, a.Gen)
+		if o == nil || o.dead {
+			continue
+		}
+		in := d.inst(a.Inst)
+		d.judgedInc("C04")
+		if a.Bool {
+			if !a.LeaderAtInv {
+				d.h.violate("C04", "true-while-not-leader/"+a.Kind, fmt.Sprintf("i%d %s returned true but the instance did not lead when it was called (%v)", a.Inst, a.Kind, a.TInv), a.TRet, a.SRet)
+				continue
+			}
+			if a.CtxDoneAtInv {
+				d.h.violate("C04", "true-with-cancelled-context/"+a.Kind, fmt.Sprintf("i%d %s returned true with a context that was already cancelled", a.Inst, a.Kind), a.TRet, a.SRet)
+				continue
+			}
+			// some moment in [inv, ret] at which the live record had the caller's id and term token
+			ok := false
+			var seen []string
+			for _, iv := range d.liveTimeline(in.cfg.Group) {
+				if iv.b <= a.TInv || iv.a > a.TRet {
+					continue
+				}
+				seen = append(seen, fmt.Sprintf("seq=%d %.80q", iv.v.Seq, iv.v.Val))
+				if iv.v.P.OK && iv.v.P.ID == in.cfg.ID && iv.v.P.Token == a.TokenAtInv {
+					ok = true
+				}
+			}
+			if !ok {
+				d.h.violate("C04", "true-without-matching-record/"+a.Kind, fmt.Sprintf("i%d %s returned true over [%v,%v] (term token %s) but the record never held its id and token in that interval; record versions: %v", a.Inst, a.Kind, a.TInv, a.TRet, short(a.TokenAtInv), seen), a.TRet, a.SRet)
+			}
+			continue
+		}
+		if a.Kind == AValidateOD {
+			// false => no longer leader once returned, for the rest of that term; OnDemote ran if it led
+			if t := termAt(a.Inst, a.Gen, a.SInv); t != nil && a.LeaderAtInv {
+				if t.Fall == nil || t.SEnd > a.SRet {
+					d.h.violate("C04", "validate-or-demote-false-but-still-leader", fmt.Sprintf("i%d ValidateTokenOrDemote returned false at %v but the term that began at %v continued", a.Inst, a.TRet, t.Start), a.TRet, a.SRet)
+				} else if !in.cfg.NoCallbacks {
+					cb := d.demoteCbAfter(a.Inst, a.Gen, t.SEnd)
+					if (cb == nil || cb.Step > a.SRet) && !d.stopFailed(t.Fall, o) && !stopStack(t.EndStack) {
+						d.h.violate("C04", "validate-or-demote-false-without-ondemote", fmt.Sprintf("i%d ValidateTokenOrDemote returned false at %v; leadership ended at %v but OnDemote had not run", a.Inst, a.TRet, t.End), a.TRet, a.SRet)
+					}
+				}
+			}
+		}
+	}
+}
+
+// ---------- C11: disconnect grace period and reconnect verification ----------
+
+func graceOf(p *Plan, c InstCfg) time.Duration {
+	if c.Grace > 0 {
+		return c.Grace
+	}
+	g := 3 * p.H
+	if g < 5*time.Second {
+		g = 5 * time.Second
+	}
+	return g
+}
+
+func (d *Driver) judgeC11() {
+	p := d.plan
+	terms := d.terms()
+	for _, in := range d.insts {
+		if !in.cfg.Monitor {
+			continue
+		}
+		G := graceOf(p, in.cfg)
+		for _, o := range in.objs {
+			if o.dead {
+				continue
+			}
+			var notifs []*NotifEvt
+			for _, n := range d.h.Notifs {
+				if n.Inst == in.idx && n.Gen == o.gen {
+					notifs = append(notifs, n)
+				}
+			}
+			var myTerms []*Term
+			for _, t := range terms {
+				if t.Inst == in.idx && t.Gen == o.gen {
+					myTerms = append(myTerms, t)
+				}
+			}
+			// (a) never before G since the latest disconnect
+			for _, t := range myTerms {
+				if t.Fall == nil || !strings.Contains(t.EndStack, "handleGracePeriodExpired") {
+					continue
+				}
+				d.judgedInc("C11")
+				var td time.Duration = -1
+				for _, n := range notifs {
+					if n.Kind == ADisconnect && n.Step < t.SEnd {
+						td = n.T
+					}
+				}
+				if td < 0 {
+					d.h.violate("C11", "grace-demotion-without-disconnect", fmt.Sprintf("i%d.%d demoted by the grace mechanism at %v without any disconnect notification", in.idx, o.gen, t.End), t.End, t.SEnd)
+				} else if t.End < td+G {
+					d.h.violate("C11", "grace-demotion-too-early", fmt.Sprintf("i%d.%d demoted by the grace mechanism at %v, only %v after the latest disconnect notification at %v (grace period %v)", in.idx, o.gen, t.End, t.End-td, td, G), t.End, t.SEnd)
+				}
+			}
+			// (b) exactly at td+G when it led continuously, no reconnect arrived and no stop was invoked
+			for i, n := range notifs {
+				if n.Kind != ADisconnect {
+					continue
+				}
+				// latest disconnect of its burst: no further disconnect/reconnect within (n.T, n.T+G]
+				later := false
+				for _, m := range notifs[i+1:] {
+					if (m.Kind == ADisconnect || m.Kind == AReconnect) && m.T <= n.T+G {
+						later = true
+					}
+				}
+				if later || n.T+G+time.Millisecond >= d.endAt {
+					continue
+				}
+				var t *Term
+				for _, x := range myTerms {
+					if x.SStart < n.Step && (x.Fall == nil || x.SEnd > n.Step) {
+						t = x
+					}
+				}
+				if t == nil {
+					continue // did not lead when the notification arrived
+				}
+				if d.stopInvokedBefore(in.idx, o.gen, n.T+G+time.Millisecond) {
+					continue
+				}
+				d.judgedInc("C11")
+				if t.Fall != nil && t.End < n.T+G {
+					continue // lost leadership earlier for another reason (judged by (a) if it was the grace mechanism)
+				}
+				slack := d.stallIn(in.idx, n.T, n.T+G+time.Second)
+				if t.Fall == nil || t.End > n.T+G+slack {
+					when := "never"
+					if t.Fall != nil {
+						when = fmt.Sprintf("at %v (%s)", t.End, t.EndStack)
+					}
+					closed := false
+					for _, m := range notifs {
+						if m.Kind == AClosed && m.T > n.T && m.T <= n.T+G {
+							closed = true
+						}
+					}
+					d.h.violate("C11", fmt.Sprintf("no-demotion-at-grace-expiry/closed-notification=%v", closed), fmt.Sprintf("i%d.%d led from %v, disconnect notification at %v, no reconnect: must be demoted at %v (grace %v) but was demoted %s", in.idx, o.gen, t.Start, n.T, n.T+G, G, when), n.T+G, 0)
+				} else if !in.cfg.NoCallbacks {
+					cb := d.demoteCbAfter(in.idx, o.gen, t.SEnd)
+					if cb == nil || cb.T > t.End+d.stallIn(in.idx, t.End, t.End+time.Second) {
+						d.h.violate("C11", "grace-demotion-without-ondemote", fmt.Sprintf("i%d.%d demoted at grace expiry %v but OnDemote did not run at that moment", in.idx, o.gen, t.End), t.End, t.SEnd)
+					}
+				}
+			}
+			// (c) after a reconnect: keeps leadership iff a fresh read shows its own id and token.
+			// Every reconnect notification that finds the instance leading starts one verification
+			// (100 ms pause, a connection-test read, then the token validation read); the k-th such
+			// notification is matched with the k-th connection-test read.
+			var tests []*Op
+			for _, op := range d.h.Ops {
+				if op.Inst == in.idx && op.Gen == o.gen && op.Kind == "get" && strings.Contains(op.Caller, "verifyLeadershipAfterReconnect") {
+					tests = append(tests, op)
+				}
+			}
+			k := 0
+			for _, n := range notifs {
+				if n.Kind != AReconnect || !n.Leader {
+					continue
+				}
+				if k >= len(tests) {
+					break
+				}
+				g1 := tests[k]
+				k++
+				var t *Term
+				for _, x := range myTerms {
+					if x.SStart < n.Step && (x.Fall == nil || x.SEnd > n.Step) {
+						t = x
+					}
+				}
+				if t == nil || g1.TRet < 0 {
+					continue
+				}
+				end := g1
+				if g1.Err == nil {
+					// the validation read that follows at once
+					var g2 *Op
+					for _, op := range d.h.Ops {
+						if op.Inst == in.idx && op.Gen == o.gen && op.Kind == "get" && strings.HasPrefix(op.Caller, "validateToken") && op.SInvoke >= g1.SRet && op.TInvoke <= g1.TRet+d.stallIn(in.idx, g1.TRet, g1.TRet+time.Second) {
+							g2 = op
+							break
+						}
+					}
+					if g2 == nil || g2.TRet < 0 {
+						continue
+					}
+					end = g2
+				}
+				if end.TRet+time.Second >= d.endAt || d.stopInvokedBefore(in.idx, o.gen, end.TRet+time.Millisecond) {
+					continue
+				}
+				if g1.Fault != "" || end.Fault != "" || end.TRet-g1.TInvoke >= 2*time.Second {
+					d.skip("C11", "verification-reads-faulted-or-slow")
+					continue
+				}
+				// record over the verification window: constantly the term's record, or constantly not
+				own, other := false, false
+				cur := g1.TInvoke
+				for _, iv := range d.liveTimeline(in.cfg.Group) {
+					if iv.b <= g1.TInvoke || iv.a > end.TRet {
+						continue
+					}
+					if iv.a > cur {
+						other = true // a gap without live record
+					}
+					if iv.v.P.OK && iv.v.P.ID == in.cfg.ID && iv.v.P.Token == t.Token {
+						own = true
+					} else {
+						other = true
+					}
+					cur = iv.b
+				}
+				if cur < end.TRet {
+					other = true
+				}
+				if own == other {
+					d.skip("C11", "record-changed-during-verification")
+					continue
+				}
+				d.judgedInc("C11")
+				if own {
+					if t.Fall != nil && strings.Contains(t.EndStack, "handleReconnectVerificationFailed") && t.End >= g1.TInvoke && t.End <= end.TRet+d.stallIn(in.idx, end.TRet, end.TRet+time.Second)+time.Millisecond {
+						d.h.violate("C11", "demoted-after-successful-reconnect-verification", fmt.Sprintf("i%d.%d: reconnect at %v; the record held its id and token throughout the verification [%v,%v], but the verification demoted it at %v", in.idx, o.gen, n.T, g1.TInvoke, end.TRet, t.End), t.End, t.SEnd)
+					}
+				} else {
+					deadline := end.TRet + d.stallIn(in.idx, end.TRet, end.TRet+time.Second) + time.Millisecond
+					if t.Fall == nil || t.End > deadline {
+						d.h.violate("C11", "still-leader-after-failed-reconnect-verification", fmt.Sprintf("i%d.%d: reconnect at %v; the record did not hold its id and token at any time of the verification [%v,%v] (last read #%d err=%v), but it kept claiming leadership", in.idx, o.gen, n.T, g1.TInvoke, end.TRet, end.ID, errStr(end.Err)), deadline, end.SRet)
+					}
+				}
+			}
 		}
 	}
 }
